@@ -635,3 +635,24 @@ Proof.
     repeat (rewrite <- app_assoc). cbn. reflexivity.
   - unfold publish_components, topic_components, last_svc. cbn. reflexivity.
 Qed.
+
+(* the strcase function each naming site calls (read from the regenerated table), applied to the declared
+   name, for EVERY declaration: the model's name builders are those calls *)
+Theorem strcase_calls_universal : forall e s,
+  component_name e s = apply_fn (the_fn "componentName") (e_name e) ++ apply_fn (the_fn "componentName") s
+  /\ full_name e = e_pkg e ++ [46] ++ apply_fn (the_fn "fullName") (e_name e)
+  /\ snake_name e = apply_fn EntityGen.entity_name_function (e_name e)
+  /\ status_prefix e = apply_fn (the_fn "acceptStatus") (e_name e) ++ the_status_literal
+  /\ status_prefix e = apply_fn (the_fn "findStatus") (e_name e) ++ the_status_literal
+  /\ map f_json (m_fields (event_type_msg e)) = map (fun ev => apply_fn (the_fn "acceptEventOneof") (ev_name ev)) (e_events e)
+  /\ query_prefix e = apply_fn "ToCamel" (snake_name e)
+  /\ own_response_name e = apply_fn "ToSnake" (apply_fn "ToLowerCamel" (snake_name e))
+  /\ camel_name e = apply_fn (the_fn "acceptPublishTopic") (e_name e)
+  /\ (forall sm, summary_topic_name e sm =
+        apply_fn (the_fn "acceptSummaryTopics") (e_name e)
+        ++ match s_name sm with [] => bs "Summary" | n => apply_fn (the_fn "acceptSummaryTopics") n end).
+Proof.
+  intros e s. repeat split; try reflexivity.
+  - cbn [event_type_msg m_fields]. rewrite map_map. reflexivity.
+  - intros sm. unfold summary_topic_name, camel_name. destruct (s_name sm); reflexivity.
+Qed.
